@@ -26,8 +26,15 @@ vars == <<tid, l, verdict, first, view>>
 T  == Traces[tid]
 Ev == T.ev[l]
 
-Init == /\ tid \in 1..Len(Traces) /\ l = 1 /\ verdict = "ok" /\ first = 0
-        /\ view = View(Traces[tid].req, Traces[tid].opts)
+NoView == [method |-> "-"]
+Init == tid \in 1..Len(Traces) /\ l = 0 /\ verdict = "ok" /\ first = 0 /\ view = NoView
+
+(* first step of every trace (done by the workers, not while enumerating initial states) *)
+Prepare ==
+    /\ l = 0
+    /\ IF WellFormed(T.req) THEN view' = View(T.req, T.opts) /\ UNCHANGED verdict
+       ELSE verdict' = "H:illformed" /\ UNCHANGED view
+    /\ l' = 1 /\ UNCHANGED <<tid, first>>
 
 PairSet(ps) == {<<ps[i][1], ps[i][2]>> : i \in 1..Len(ps)}
 
@@ -58,8 +65,7 @@ Judge ==
 
 Step ==
     /\ l >= 1 /\ l <= Len(T.ev) /\ verdict = "ok"
-    /\ IF ~WellFormed(T.req) THEN verdict' = "H:illformed" /\ UNCHANGED first
-       ELSE IF ~Expressible(T.req, Ev.iface) THEN UNCHANGED <<verdict, first>>
+    /\ IF ~Expressible(T.req, Ev.iface) THEN UNCHANGED <<verdict, first>>
        ELSE verdict' = Judge /\ first' = (IF first = 0 THEN l ELSE first)
     /\ l' = l + 1 /\ UNCHANGED <<tid, view>>
 
@@ -68,7 +74,7 @@ Done ==
     /\ PrintT(<<"VERDICT", tid, verdict, l - 1>>)
     /\ l' = -1 /\ UNCHANGED <<tid, verdict, first, view>>
 
-Next == Step \/ Done
+Next == Prepare \/ Step \/ Done
 Spec == Init /\ [][Next]_vars
 Sound == first <= Len(T.ev)
 =============================================================================
